@@ -115,7 +115,8 @@ def reg_work(res, tie, fmt, choice, fs, variant):
         outcomes["text"] = cases.run_reg(c, e, "text")
     for nm, wrap in (("bytes-subclass", MyBytes), ("memoryview", memoryview),
                      ("memoryview-of-writable-buffer", lambda b: memoryview(bytearray(b))),
-                     ("memoryview-slice", lambda b: memoryview(b"\x00" + bytes(b) + b"\x00")[1:-1])):
+                     ("memoryview-slice", lambda b: memoryview(b"\x00" + bytes(b) + b"\x00")[1:-1]),
+                     ("memoryview-strided", lambda b: memoryview(bytes(x for y in bytes(b) for x in (y, 0)))[::2])):
         c2 = dict(c, raw_id=wrap(c["raw_id"]), client_data_json=wrap(c["client_data_json"]), attestation_object=wrap(c["attestation_object"]))
         outcomes[nm] = cases.run_reg(c2, dict(e, challenge=wrap(e["challenge"])))
     res.evaluations += len(outcomes)
@@ -180,7 +181,8 @@ def work(tasks, idx):
             outcomes["text"] = cases.run_auth(a, e, "text")
         for nm, wrap in (("bytes-subclass", MyBytes), ("memoryview", memoryview),
                          ("memoryview-of-writable-buffer", lambda b: memoryview(bytearray(b))),
-                         ("memoryview-slice", lambda b: memoryview(b"\x00" + bytes(b) + b"\x00")[1:-1])):
+                         ("memoryview-slice", lambda b: memoryview(b"\x00" + bytes(b) + b"\x00")[1:-1]),
+                         ("memoryview-strided", lambda b: memoryview(bytes(x for y in bytes(b) for x in (y, 0)))[::2])):
             a2, e2 = byte_forms(a, e, wrap)
             outcomes[nm] = cases.run_auth(a2, e2)
         res.evaluations += len(outcomes) - 1
